@@ -14,9 +14,16 @@ def live(seed, k, tier):
     s = scen.Scn("c11-live-%d" % k, sched=sched, seed=seed * 10 + k)
     users = [s.key("A1"), s.key("A2")]
     poor = [s.key("N%d" % i) for i in range(1, 26)]          # keys that never hold PEG: not among the top holders
+    zero = [s.key("Z%d" % i) for i in range(1, 26)]          # known to the ledger (they hold pUSD) but hold no PEG: not top holders either
     h = scen.live_preamble(s, users, fund_peg=100 * 10**8)
+    s.convert(h, "A1", "PEG", 50 * 10**8, "pUSD")
+    s.grade(h); h += 1
+    s.grade(h)
+    s.transfer(h, "A1", "pUSD", [(z, 1000 + i) for i, z in enumerate(zero)])
+    h += 1
+    forced = ["spr-zeropeg", "spr-mixzero", "spr-idmismatch", "band-out", "spr-poor", "spr-badsig", "spr-few"]
     while h < 26:
-        c = rnd.choice(["ok", "ok", "few", "none", "many", "dupaddr", "outlier", "badver", "prevmismatch", "spr-few", "spr-poor",
+        c = forced.pop(0) if forced and h >= 11 else rnd.choice(["ok", "ok", "few", "none", "many", "dupaddr", "outlier", "badver", "prevmismatch", "spr-few", "spr-poor", "spr-zeropeg", "spr-mixzero",
                         "spr-none", "spr-dupcoin", "spr-badsig", "spr-idmismatch", "spr-garbage", "band-out"])
         n = 25
         oprkw, sprkw = {}, {}
@@ -49,6 +56,10 @@ def live(seed, k, tier):
                     sp["n"] = 24
                 elif c == "spr-poor":
                     sp["stakers"] = poor
+                elif c == "spr-zeropeg":
+                    sp["stakers"] = zero
+                elif c == "spr-mixzero":
+                    sp["stakers"] = zero[:3] + scen.MINERS[:22]
                 elif c == "spr-none":
                     del b["spr"]
                 elif c == "spr-dupcoin":
